@@ -12,6 +12,9 @@
 // by-value / T&& continuations on an instrumented payload (a moved-from value is observable there, not with int payloads):
 // the optional/either/variant harnesses of C05_byvalue.cpp are decided again for C04 ("return what the documentation states")
 //@import C05_byvalue.cpp only=^h_bv_(optional|either|variant)_
+// value-category mixes on an instrumented payload (an lvalue argument must be left unchanged, an rvalue moved at most once):
+//@import C05_sum.cpp
+//@import C05_seq.cpp only=^h_(optional|either)_
 #include "C04_common.hpp"
 #include <fcppt/make_cref.hpp>
 #include <fcppt/reference_impl.hpp>
